@@ -76,6 +76,7 @@ let run_cmp (c : case) : string =
 let dispatch (c : case) : string =
   if c.kind = "lz4c" then Frames.run_lz4c c else
   if c.kind = "pipe" then Frames.run_pipe c else
+  if c.kind = "rpipe" then Frames.run_rpipe c else
   if c.kind = "hdr" then Frames.run_hdr c else
   if c.kind = "hdrm" then Frames.run_hdrm c else
   if c.kind = "ws" then Frames.run_ws c else
